@@ -1,6 +1,8 @@
 SPECIFICATION Spec
 CONSTANT NTypes = 2
 CONSTANT Level = 1
+CONSTANT DropRequiredAtCut = FALSE
 INVARIANT Emit
 INVARIANT MeshModelAgrees
+INVARIANT ExampleValid
 CHECK_DEADLOCK FALSE
